@@ -34,8 +34,10 @@ def fmt_cells(cells):
     for c in cells:
         if c in (0, 1):
             out.append(str(c))
-        else:
+        elif isinstance(c, tuple) and len(c) == 2 and isinstance(c[1], int) and not isinstance(c[0], str):
             out.append("%s.%d" % (fmt_atom(c[0]), c[1]))
+        else:
+            out.append(repr(c))       # not / and / or / xor of cells
     # compress runs
     s = []
     i = 0
